@@ -387,6 +387,69 @@ theorem Inv.addCaller {H : Heap} (hi : Inv H) (cl : Caller) (hc : cl.conn < H.co
     subst this; simp at h; subst h
     exact ⟨hc, by simp [he]⟩
 
+/-- the heap after `doCall` is the heap after `get_conn`, or after the request made through it -/
+theorem doCall_heap (H : Heap) (k : Nat) (comps : Comps) (args : Args) :
+    (doCall H k comps args).1 = (getConn H k comps).1 ∨
+    ∃ c, (doCall H k comps args).1 = (request (getConn H k comps).1 c args).1 := by
+  unfold doCall
+  split
+  · rename_i H' c heq
+    have : H' = (getConn H k comps).1 := by rw [heq]
+    subst this
+    right; refine ⟨c, ?_⟩
+    split
+    · rename_i H'' s heq2; rw [heq2]
+    · rename_i H'' e heq2; rw [heq2]
+  · rename_i H' e heq
+    left; rw [heq]
+
+/-- calling a wrapper: an error before anything happens, or `doCall` with the components the class's
+table gives for the name (and the path marked with the class whose body runs) -/
+theorem step_call_cases (H : Heap) (k : Nat) (m : Str) (args : Args) :
+    (∃ e, step H (.call k m args) = (H, .error e)) ∨
+    ∃ comps args', step H (.call k m args) = doCall H k comps args' := by
+  simp only [step]
+  split
+  · exact Or.inl ⟨_, rfl⟩
+  · split
+    · exact Or.inl ⟨_, rfl⟩
+    · split
+      · exact Or.inr ⟨_, _, rfl⟩
+      · exact Or.inl ⟨_, rfl⟩
+
+/-- making a caller: an error, a caller on an existing `HttpConn`, or on a connection made for it -/
+theorem step_newCaller_cases (H : Heap) (t : Target) (cls : Nat) :
+    (∃ e, step H (.newCaller t cls) = (H, .error e)) ∨
+    (∃ cl : Caller, cl.conn < H.conns.length ∧ cl.cache = [] ∧
+      step H (.newCaller t cls) = ({ H with callers := H.callers ++ [cl] }, .ok (.ref H.callers.length))) ∨
+    (∃ H' n t' cl, mkConn H t' .none true = some (H', n) ∧ Caller.conn cl = n ∧ cl.cache = [] ∧
+      step H (.newCaller t cls) = ({ H' with callers := H'.callers ++ [cl] }, .ok (.ref H'.callers.length))) := by
+  simp only [step]
+  split
+  · exact Or.inl ⟨_, rfl⟩
+  · split
+    · rename_i p
+      split
+      · exact Or.inl ⟨_, rfl⟩
+      · rename_i pc hpc
+        split
+        · exact Or.inr (Or.inl ⟨_, (List.getElem?_eq_some_iff.mp hpc).1, rfl, rfl⟩)
+        · split
+          · rename_i H' n h
+            exact Or.inr (Or.inr ⟨H', n, _, _, h, rfl, rfl, rfl⟩)
+          · exact Or.inl ⟨_, rfl⟩
+    · split
+      · rename_i H' n h
+        exact Or.inr (Or.inr ⟨H', n, _, _, h, rfl, rfl, rfl⟩)
+      · exact Or.inl ⟨_, rfl⟩
+
+theorem doCall_inv {H : Heap} (hi : Inv H) (k : Nat) (comps : Comps) (args : Args) :
+    Inv (doCall H k comps args).1 := by
+  have h1 := getConn_inv hi k comps
+  rcases doCall_heap H k comps args with h | ⟨c, h⟩
+  · rw [h]; exact h1
+  · rw [h]; exact request_inv h1 c args
+
 /-- every operation keeps the separation invariant -/
 theorem step_inv {H : Heap} (hi : Inv H) (op : Op) : Inv (step H op).1 := by
   cases op with
@@ -423,26 +486,23 @@ theorem step_inv {H : Heap} (hi : Inv H) (op : Op) : Inv (step H op).1 := by
     · split
       · exact hi.setList _ _
       · exact hi
-  | newCaller t pmap =>
+  | newParams d =>
     simp only [step]
     split
-    · rename_i p
-      split
-      · exact hi
-      · rename_i pc hpc
-        split
-        · apply hi.addCaller _ _ rfl
-          exact (List.getElem?_eq_some_iff.mp hpc).1
-        · split
-          · rename_i H' n h
-            obtain ⟨hi1, hn, hlen⟩ := hi.mkConn h
-            exact hi1.addCaller _ (by simp; omega) rfl
-          · exact hi
-    · split
-      · rename_i H' n h
-        obtain ⟨hi1, hn, hlen⟩ := hi.mkConn h
-        exact hi1.addCaller _ (by simp; omega) rfl
-      · exact hi
+    · exact hi.setDicts _ _
+    · exact hi
+  | newClass bases mro pmap own =>
+    simp only [step]
+    split
+    · exact hi
+    · exact ⟨hi.conn_ok, hi.conn_inj, hi.user_ok, hi.caller_ok⟩
+  | newCaller t cls =>
+    rcases step_newCaller_cases H t cls with ⟨e, h⟩ | ⟨cl, hc, he, h⟩ | ⟨H', n, t', cl, hmk, hcn, he, h⟩
+    · rw [h]; exact hi
+    · rw [h]; exact hi.addCaller cl hc he
+    · rw [h]
+      obtain ⟨hi1, hn, hlen⟩ := hi.mkConn hmk
+      exact hi1.addCaller cl (by rw [hcn]; omega) he
   | clone k own =>
     simp only [step]
     split
@@ -460,24 +520,10 @@ theorem step_inv {H : Heap} (hi : Inv H) (op : Op) : Inv (step H op).1 := by
     split
     · split <;> exact hi
     · exact hi
-  | call k comps args =>
-    simp only [step]
-    have h1 := getConn_inv hi k comps
-    split
-    · rename_i H' c heq
-      have : H' = (getConn H k comps).1 := by rw [heq]
-      subst this
-      have h2 := request_inv h1 c args
-      split
-      · rename_i H'' s heq2
-        have : H'' = (request (getConn H k comps).1 c args).1 := by rw [heq2]
-        subst this; exact h2
-      · rename_i H'' e heq2
-        have : H'' = (request (getConn H k comps).1 c args).1 := by rw [heq2]
-        subst this; exact h2
-    · rename_i H' e heq
-      have : H' = (getConn H k comps).1 := by rw [heq]
-      subst this; exact h1
+  | call k m args =>
+    rcases step_call_cases H k m args with ⟨e, h⟩ | ⟨comps, a', h⟩
+    · rw [h]; exact hi
+    · rw [h]; exact doCall_inv hi k comps a'
   | request c args =>
     simp only [step]
     have h2 := request_inv hi c args
@@ -628,19 +674,13 @@ theorem step_view {H : Heap} (hi : Inv H) {c : Nat} (hc : c < H.conns.length) (o
         intro cn hcn heq
         exact hne (hi.conn_inj c' c cn' cn hcn' hcn heq.symm)
       · rfl
-  | newCaller t pmap =>
-    simp only [step]
-    split
-    · split
-      · rfl
-      · split
-        · rfl
-        · split
-          · rename_i H' n h; rw [viewCore_callers]; exact viewCore_mkConn hi h hc
-          · rfl
-    · split
-      · rename_i H' n h; rw [viewCore_callers]; exact viewCore_mkConn hi h hc
-      · rfl
+  | newParams d => simp only [step]; split <;> rfl
+  | newClass bases mro pmap own => simp only [step]; split <;> rfl
+  | newCaller t cls =>
+    rcases step_newCaller_cases H t cls with ⟨e, h⟩ | ⟨cl, _, _, h⟩ | ⟨H', n, t', cl, hmk, _, _, h⟩
+    · rw [h]
+    · rw [h]; rfl
+    · rw [h, viewCore_callers]; exact viewCore_mkConn hi hmk hc
   | clone k own =>
     simp only [step]
     split
@@ -654,24 +694,14 @@ theorem step_view {H : Heap} (hi : Inv H) {c : Nat} (hc : c < H.conns.length) (o
     split
     · split <;> rfl
     · rfl
-  | call k comps args =>
-    simp only [step]
-    have h1 := viewCore_getConn hi k comps hc
-    split
-    · rename_i H' c' heq
-      have : H' = (getConn H k comps).1 := by rw [heq]
-      subst this
-      have h2 := viewCore_request (getConn H k comps).1 c' args c
-      split
-      · rename_i H'' s heq2
-        have : H'' = (request (getConn H k comps).1 c' args).1 := by rw [heq2]
-        subst this; rw [h2, h1]
-      · rename_i H'' e heq2
-        have : H'' = (request (getConn H k comps).1 c' args).1 := by rw [heq2]
-        subst this; rw [h2, h1]
-    · rename_i H' e heq
-      have : H' = (getConn H k comps).1 := by rw [heq]
-      subst this; exact h1
+  | call k m args =>
+    rcases step_call_cases H k m args with ⟨e, h⟩ | ⟨comps, a', h⟩
+    · rw [h]
+    · rw [h]
+      have h1 := viewCore_getConn hi k comps hc
+      rcases doCall_heap H k comps a' with h2 | ⟨c', h2⟩
+      · rw [h2]; exact h1
+      · rw [h2, viewCore_request]; exact h1
   | request c' args =>
     simp only [step]
     have h2 := viewCore_request H c' args c
